@@ -38,6 +38,9 @@ Bounded == Line.state = "closed" \/ (Line.state = "ok" /\ Line.ctl <= maxq /\ Li
 TIn      == Line.e = "in" /\ phase = "input" /\ UNCHANGED <<phase, gone>>
 TQ       == /\ Line.e = "q" /\ Bounded /\ (gone => Line.state = "closed")     \* a closed connection stays closed
             /\ gone' = (gone \/ Line.state = "closed") /\ UNCHANGED phase
+(* the client vanishes right after its input, handlers still running: only the driver's final check *)
+(* (serve loop gone once the client has closed: a "leak" line matches nothing) remains             *)
+TAbrupt  == Line.e = "abrupt" /\ phase = "input" /\ phase' = "done" /\ UNCHANGED gone
 TRelease == Line.e = "release" /\ phase = "input" /\ phase' = "drain" /\ UNCHANGED gone
 TOut     == Line.e = "out" /\ phase = "drain" /\ UNCHANGED <<phase, gone>>
 TTick    == Line.e = "tick" /\ phase = "drain" /\ UNCHANGED <<phase, gone>>
@@ -52,7 +55,7 @@ TFinal   == /\ Line.e = "final" /\ phase = "drain"
 TNext ==
     /\ l <= Meta.ends[cur]
     /\ l' = l + 1 /\ cur' = cur /\ adv' = adv /\ maxq' = maxq
-    /\ (TIn \/ TQ \/ TRelease \/ TOut \/ TTick \/ TFinal)
+    /\ (TIn \/ TQ \/ TAbrupt \/ TRelease \/ TOut \/ TTick \/ TFinal)
 
 TSpec == TInit /\ [][TNext]_hvars
 Mark == HighWater(cur, l)
